@@ -173,6 +173,22 @@ class GeomAdapter(Adapter):
                     fail("densities", freq.tolist(), (dens * sizes).tolist())
                 if hasattr(h, "total_size") and not self._close(h.total_size, want.sum(), 64):
                     fail("total_size", float(want.sum()), float(h.total_size))
+                # the surface classes as they come out of a projection (which records the radius of the source) or with a radius
+                # given: the measure of a cell in the histogram's own coordinates does not depend on it
+                derived = []
+                if cls == "cylsurf":
+                    src = self.S.CylindricalHistogram([r[-2:], phi, z], np.ones((1, len(phi) - 1, len(z) - 1)), dtype=float)
+                    derived.append(("projection of a cylinder", src.projection("phi", "z")))
+                    derived.append(("radius=2.5", k(bs, freq, dtype=float, radius=2.5)))
+                elif cls == "sphsurf":
+                    src = self.S.SphericalHistogram([r[-2:], th, phi], np.ones((1, len(th) - 1, len(phi) - 1)), dtype=float)
+                    derived.append(("projection of a sphere", src.projection("theta", "phi")))
+                    derived.append(("radius=2.5", k(bs, freq, dtype=float, radius=2.5)))
+                for how, hd in derived:
+                    sd = np.asarray(hd.bin_sizes)
+                    if type(hd).__name__ != KLASS[cls] or sd.shape != shape or not all(self._close(sd[ix], want[ix], 16) for ix in np.ndindex(*shape)):
+                        fail("bin_sizes", {"how": how, "sizes": want.tolist()}, {"class": type(hd).__name__, "sizes": sd.tolist()})
+                        break
         except EXC as ex:
             return Mismatch(["accepted"], {"raised": f"{type(ex).__name__}: {ex}"})
         if bad:
